@@ -10,6 +10,7 @@ from ..ndarr import Arr, InterpRaise
 from ..absint import Interp
 from ..libmodels import Models
 from ..engine import budget
+from ..paths import approx_paths, path_text, only_negligible
 
 RULES = {
     'R-LAGRANGE': 'abstract run of fd_weights_all on symbolic distinct nodes x_0..x_{m-1} and a symbolic expansion point: row k, entry v '
@@ -38,6 +39,112 @@ def lagrange_weight(xs, c, v, k):
     return Rat.make(e * math.factorial(k), den)
 
 
+def stencil_table_keys(repo):
+    """(n, len) keys of the literal dict CENTRAL_WEIGHTS_AND_POINTS in fornberg.py, read from the AST (empty when absent)."""
+    import ast
+    keys = set()
+    for node in ast.walk(repo.module('fornberg').tree):
+        if isinstance(node, ast.Assign) and any(isinstance(t, ast.Name) and t.id == 'CENTRAL_WEIGHTS_AND_POINTS' for t in node.targets) \
+                and isinstance(node.value, ast.Dict):
+            for k in node.value.keys:
+                try:
+                    v = ast.literal_eval(k)
+                except (ValueError, TypeError):
+                    continue
+                if isinstance(v, tuple) and len(v) == 2 and all(isinstance(t, int) for t in v):
+                    keys.add(v)
+    return keys
+
+
+def judge(rep, W, xs, c, n, m, where, label, rule='R-LAGRANGE', rows=None):
+    problems = []
+    rows = list(range(n + 1)) if rows is None else rows
+    want_shape = (n + 1, m) if rule == 'R-LAGRANGE' else (m,)
+    if not isinstance(W, Arr) or W.shape != want_shape:
+        problems.append('shape %r, expected %r' % (getattr(W, 'shape', None), want_shape))
+    else:
+        for k in rows:
+            for v in range(m):
+                want = lagrange_weight(xs, c, v, k)
+                got = W[k, v] if rule == 'R-LAGRANGE' else W[v]
+                if not alg_equal(got, want):
+                    problems.append('row %d node %d: %s (exact: %s)' % (k, v, repr(got)[:60], repr(want)[:60]))
+    return problems
+
+
+def generic(ctx, fb, where, m, rank, xs, c, row_rule):
+    """Symbolic distinct nodes under one ordering hypothesis; tolerance predicates are explored on both sides."""
+    rep = ctx.rep
+    n = m - 1
+    label0 = 'len(x)=%d/n=%d/order hypothesis=%s' % (m, n, rank)
+    where_fw = fb.where(ctx.repo.func('fornberg', 'fd_weights'))
+
+    def run_one(entry, args_of, rule, construct, wh, label, key, rows, nn):
+        records = []
+
+        def body(oracle):
+            models = Models()
+            I = Interp(ctx.repo, models, branch_oracle=oracle)
+            models.bind(I)
+            ndarr.ORDER_RANK.clear()
+            ndarr.ORDER_RANK.update({'x%d' % k: rank[k] for k in range(m)})
+            try:
+                return I.get_global('fornberg', entry)(*args_of())
+            finally:
+                ndarr.ORDER_RANK.clear()
+        try:
+            with budget(60, '%s m=%d' % (entry, m)):
+                paths = approx_paths(body, records=records)
+                for (decisions, W, exc), rec in zip(paths, records):
+                    lab = label + ('' if not decisions else '/' + path_text(decisions))
+                    if exc is not None:
+                        rep.violation(rule, construct, wh, {'raises': exc.exc_name, 'message': exc.msg[:100]},
+                                      'weights for distinct nodes', lab, key='raises')
+                        continue
+                    if rec and any(o for _, o in rec) and only_negligible(rec):
+                        # equality up to rounding: covered by the instances with identical operands (uniform grids)
+                        rep.notes.setdefault('paths_refining_exact_equality', []).append(lab[:160])
+                        continue
+                    problems = judge(rep, W, xs, c, nn, m, wh, lab, rule, rows)
+                    rep.check(not problems, rule, construct, wh, {'nodes': m, 'n': nn, 'mismatches': problems[:3]},
+                              'k-th derivative at x0 of the Lagrange basis polynomials', lab, key=key)
+        except AnalysisError as exc:
+            rep.undecided(rule, construct, exc, label)
+    run_one('fd_weights_all', lambda: (Arr((m,), list(xs)), c, n), 'R-LAGRANGE', 'fornberg._fd_weights_all', where, label0,
+            'lagrange', None, n)
+    if row_rule:
+        for nn in range(m):
+            run_one('fd_weights', lambda nn=nn: (Arr((m,), list(xs)), c, nn), 'R-ROW', 'fornberg.fd_weights', where_fw,
+                    'len(x)=%d/n=%d' % (m, nn), 'row', [nn], nn)
+
+
+def uniform(ctx, fb, where, n, m, offs, tag):
+    rep = ctx.rep
+    S, C = Poly.sym('s'), Poly.sym('c')
+    xs = [C + S * k for k in offs]
+    ndarr.POSITIVE_ATOMS.add('s')
+    where_fw = fb.where(ctx.repo.func('fornberg', 'fd_weights'))
+    for x0, x0tag in ((C, 'x0 = c'), (C + S * Fr(1, 3), 'x0 = c + s/3')):
+        label = 'uniform grid c + s*%s (%s)/%s/n=%d' % (offs, tag, x0tag, n)
+        try:
+            models = Models()
+            I = Interp(ctx.repo, models)
+            models.bind(I)
+            with budget(60, 'fd_weights uniform m=%d' % m):
+                try:
+                    row = I.get_global('fornberg', 'fd_weights')(Arr((m,), list(xs)), x0, n)
+                except InterpRaise as exc:
+                    rep.violation('R-ROW', 'fornberg.fd_weights', where_fw, {'raises': exc.exc_name, 'message': exc.msg[:100]},
+                                  'weights for distinct nodes', label, key='raises')
+                    continue
+                problems = judge(rep, row, xs, x0, n, m, where_fw, label, 'R-ROW', [n])
+                rep.check(not problems, 'R-ROW', 'fornberg.fd_weights', where_fw, {'nodes': m, 'n': n, 'mismatches': problems[:3]},
+                          'n-th derivative at x0 of the Lagrange basis polynomials of the equally spaced nodes', label, key='row uniform')
+        except AnalysisError as exc:
+            rep.undecided('R-ROW', 'fornberg.fd_weights', exc, label)
+    ndarr.POSITIVE_ATOMS.discard('s')
+
+
 def run(ctx):
     rep = ctx.rep
     rep.notes['explanation'] = (
@@ -58,47 +165,17 @@ def run(ctx):
         if ctx.tier == 'quick' and m == 4:
             orders = orders[:3]
         for rank in orders:
-            models = Models()
-            I = Interp(ctx.repo, models)
-            models.bind(I)
-            ndarr.ORDER_RANK.clear()
-            ndarr.ORDER_RANK.update({'x%d' % k: rank[k] for k in range(m)})
-            try:
-                fwa = I.get_global('fornberg', 'fd_weights_all')
-                fw = I.get_global('fornberg', 'fd_weights')
-                xs = [Poly.sym('x%d' % k) for k in range(m)]
-                c = Poly.sym('c')
-                n = m - 1
-                label = 'len(x)=%d/n=%d/order hypothesis=%s' % (m, n, rank)
-                with budget(60, 'fd_weights_all m=%d' % m):
-                    try:
-                        W = fwa(Arr((m,), list(xs)), c, n)
-                    except InterpRaise as exc:
-                        rep.violation('R-LAGRANGE', 'fornberg.fd_weights_all', where, {'raises': exc.exc_name, 'message': exc.msg[:100]},
-                                      'weights for distinct nodes', label, key='raises')
-                        continue
-                    problems = []
-                    if not isinstance(W, Arr) or W.shape != (n + 1, m):
-                        problems.append('shape %r, expected %r' % (getattr(W, 'shape', None), (n + 1, m)))
-                    else:
-                        for k in range(n + 1):
-                            for v in range(m):
-                                want = lagrange_weight(xs, c, v, k)
-                                if not alg_equal(W[k, v], want):
-                                    problems.append('row %d node %d: %s' % (k, v, repr(W[k, v])[:80]))
-                    rep.check(not problems, 'R-LAGRANGE', 'fornberg._fd_weights_all', where,
-                              {'nodes': m, 'rows': n + 1, 'mismatches': problems[:3]},
-                              'k-th derivative at x0 of the Lagrange basis polynomials', label, key='lagrange')
-                    if rank == orders[0]:
-                        for nn in range(m):
-                            row = fw(Arr((m,), list(xs)), c, nn)
-                            ok = isinstance(row, Arr) and row.shape == (m,) and \
-                                all(alg_equal(row[v], lagrange_weight(xs, c, v, nn)) for v in range(m))
-                            rep.check(ok, 'R-ROW', 'fornberg.fd_weights', fb.where(ctx.repo.func('fornberg', 'fd_weights')),
-                                      {'nodes': m, 'n': nn}, 'row n of the all-orders table', 'len(x)=%d/n=%d' % (m, nn),
-                                      key='row')
-            except AnalysisError as exc:
-                rep.undecided('R-LAGRANGE', 'fornberg.fd_weights_all', exc, 'len(x)=%d/%s' % (m, rank))
-            finally:
-                ndarr.ORDER_RANK.clear()
+            xs = [Poly.sym('x%d' % k) for k in range(m)]
+            generic(ctx, fb, where, m, rank, xs, Poly.sym('c'), row_rule=(rank == orders[0]))
+    # uniform grids: the nodes are c + s*k for concrete integers k (any order), so code that recognises equally spaced
+    # stencils (tolerance predicates included: identical terms compare close) is analysed on the case it is written for.
+    # Sizes and orders follow the stencil table of the module when there is one.
+    table_keys = stencil_table_keys(ctx.repo)
+    rep.notes['stencil_table_keys'] = sorted(table_keys)
+    uni = sorted({(n, m) for n, m in table_keys if m <= (9 if ctx.tier != 'quick' else 7)} | {(1, 3), (2, 3), (1, 5), (2, 5)})
+    for n, m in uni:
+        half = m // 2
+        for offs, tag in ((list(range(-half, m - half)), 'centred'), (list(range(0, m)), 'one-sided'),
+                          (list(range(m - half - 1, -half - 1, -1)), 'centred, descending')):
+            uniform(ctx, fb, where, n, m, offs, tag)
     rep.notes['trusted_base'] = ['python ast', 'ndverif abstract interpreter and exact rational-function algebra']
